@@ -81,10 +81,42 @@ class Gen:
                 self.id(r.choice(names))
             else:
                 self.sym("("); self.expr(names, depth + 2); self.sym(")")
-        elif x < 0.94:
+        elif x < 0.92:
             self.expr(names, depth + 1); self.sym("?"); self.expr(names, depth + 1); self.sym(":"); self.expr(names, depth + 1)
-        else:
+        elif x < 0.95:
             self.sym("{"); self.expr(names, depth + 1); self.sym(","); self.expr(names, depth + 1); self.sym("}")
+        else:
+            self.primary_zoo(names, depth)
+
+    def primary_zoo(self, names, depth):
+        """the less common primaries of A.8.4: casts (literal, type and signing sized), replication, selects, calls"""
+        r = self.r
+        y = r.random()
+        v = r.choice(names) if names else None
+        if y < 0.3:
+            # casting_type ' ( expression ): a literal size, a simple type, a signing
+            self.toks.append((r.choice(["8", "16", "1"]), "num")) if r.random() < 0.5 else self.kw(r.choice(["int", "signed", "unsigned", "byte"]))
+            self.sym("'"); self.sym("("); self.expr(names, depth + 2); self.sym(")")
+        elif y < 0.45:
+            self.sym("{"); self.toks.append((r.choice(["2", "3"]), "num")); self.sym("{"); self.expr(names, depth + 2); self.sym("}"); self.sym("}")
+        elif y < 0.65 and v:
+            self.id(v); self.sym("[")
+            if r.random() < 0.5:
+                self.toks.append((r.choice(["3", "7"]), "num")); self.sym(":"); self.toks.append(("0", "num"))
+            else:
+                self.expr(names, depth + 2); self.sym(r.choice(["+:", "-:"])); self.toks.append(("2", "num"))
+            self.sym("]")
+        elif y < 0.8:
+            self.id(r.choice(PLAIN) + "_f"); self.sym("(")
+            for i in range(r.randint(0, 2)):
+                if i:
+                    self.sym(",")
+                self.expr(names, depth + 2)
+            self.sym(")")
+        elif y < 0.9:
+            self.toks.append((r.choice(["$clog2", "$bits", "$signed"]), "id")); self.sym("("); self.expr(names, depth + 2); self.sym(")")
+        else:
+            self.toks.append(('"s %d"', "str"))
 
     # ------------------------------------------------------------ statements
     def stmt(self, vars_, depth=0):
